@@ -155,6 +155,9 @@ def build_plans(B, cfg, level, seed=0, only=None):
             cols2.append([strs[i] for i in col] if c == "s" else col)
         plans.append(Plan(name, "fn", sig, cols2))
     # hand ops for object API
+    unames = strs + ["Si", "AlphaAlumina", "AlphaQuartz", "Zz"]
+    uc, un, ui = domains.product(np.array([0, 1, 2, 5]), np.array([0, 1, 2, 3]), np.arange(len(unames)))
+    ucols = [uc, un, [unames[i] for i in ui]]
     nl = 182
     objs = [("CompoundParser", "s", [strs + domains.parser_fault_strings() + domains.subscript_edge_formulas()]), ("NISTByName", "s", [strs]), ("NISTByIndex", "i", [np.arange(-3, nl + 3)]),
             ("NISTList", "i", [np.array([0, 1])]), ("RadioByName", "s", [strs + ["55Fe", "241Am", "57Co"]]),
@@ -162,6 +165,9 @@ def build_plans(B, cfg, level, seed=0, only=None):
             ("CrystalList", "i", [np.array([0, 1])]), ("AtomicNumberToSymbol", "i", [np.arange(-3, 126)]),
             ("SymbolToAtomicNumber", "s", [strs + ["Fe", "Uub", "fe", "FE"]]),
             ("Crystal_GetCrystal", "s", [strs + ["Si", "Diamond", "LiF", "si"]]), ("Crystal_MakeCopy", "i", [crystals]),
+            # the same constructors on USER arrays in every storage state (capacity 0 never given storage / empty with storage / exactly full / grown)
+            ("getcrystal_user", "iis", ucols),
+            ("listcrystals_user", "iii", domains.product(np.array([0, 1, 2, 5]), np.array([0, 1, 2, 3]), np.array([0, 1]))),
             ("Atomic_Factors", "idddi", domains.product(Zs, Egen, np.array([-1.0, 0.0, 0.5, 1e9, 2e9]), np.array([1.0, 0.5, 0.0, -1.0, 2.0]), np.array([7, 0, 1, 6]))),
             ("Refractive_Index2", "sdd", None), ("SF2", "idiiidd", None), ("SFP2", "idiiiddiii", None)]
     byname = {p.name: p for p in plans}
